@@ -354,6 +354,7 @@ func runProp(prop, modeName, tier string, seed uint64, outPath, replayDir, known
 						keep = keepOverride
 					}
 					wedgesBefore := lockWedges.Load()
+					firedBefore := wdFired.Load()
 					t, err := j.spec.Run(keep)
 					if err != nil {
 						mu.Lock()
@@ -370,16 +371,18 @@ func runProp(prop, modeName, tier string, seed uint64, outPath, replayDir, known
 						return
 					}
 					diffs, mons := relevant(ps, v)
-					if (len(diffs) > 0 || len(mons) > 0) && watchdogExpired(t) && lockWedges.Load() > wedgesBefore {
+					expired := watchdogExpired(t) || wdFired.Load() > firedBefore
+					if (len(diffs) > 0 || len(mons) > 0) && expired && lockWedges.Load() > wedgesBefore {
 						// goroutines of the code under test were found parked on a mutex for seconds
 						// while this case ran: a deadlock, which need not show again when run alone
 						mu.Lock()
 						sum.Cov["watchdog.expired-with-goroutines-parked-on-a-mutex"]++
 						mu.Unlock()
-					} else if (len(diffs) > 0 || len(mons) > 0) && watchdogExpired(t) && confirmedHangs.Load() < 3 {
+					} else if (len(diffs) > 0 || len(mons) > 0) && expired && confirmedHangs.Load() < 3 {
 						// a wall-clock limit expired: execute the case again with every limit
 						// multiplied; only a complaint that shows again is reported
 						wdSlow.Add(1)
+						firedMid := wdFired.Load()
 						t2, err2 := j.spec.Run(keep)
 						wdSlow.Add(-1)
 						if err2 == nil {
@@ -392,7 +395,7 @@ func runProp(prop, modeName, tier string, seed uint64, outPath, replayDir, known
 									t, v, diffs, mons = t2, v2, d2, m2
 								} else {
 									t, v, diffs, mons = t2, v2, d2, m2
-									if watchdogExpired(t2) {
+									if watchdogExpired(t2) || wdFired.Load() > firedMid {
 										confirmedHangs.Add(1)
 									}
 								}
